@@ -18,6 +18,12 @@ from snooty.parser import EmbeddedRstParser, InlineJSONVisitor, JSONVisitor, par
 from snooty.tinydocutils import statemachine, states
 from snooty.types import ProjectConfig
 
+# After this many parses ran into the watchdog, the pool workers stop parsing further cases of the stream (each would cost another
+# watchdog period): the hangs already seen are reported - with their inputs - and that is enough to decide the run. Only in pool
+# workers: shrinking, confirmation and --replay in the main process always parse.
+HANG_LIMIT = 12
+import multiprocessing as _mp
+HANGS = _mp.Value("i", 0)
 WATCHDOG_S = 10        # CPU seconds of the parsing process (a loop that does not terminate burns CPU; immune to machine load)
 WATCHDOG_WALL_S = 120  # wall-clock backstop (blocking calls)
 _ROOT: Optional[Path] = None
@@ -221,8 +227,65 @@ def config(case) -> ProjectConfig:
     return cfg
 
 
-def run(case: dict) -> dict:
-    """case: {text, mode: page|block|inline, domain, fileid?}"""
+KILL_AFTER_S = 40      # wall seconds after which a parse run by run_isolated is killed
+
+
+def run_isolated(case: dict) -> dict:
+    """`run` in a forked child that is KILLED when it has not answered after KILL_AFTER_S (used in the main process: corpus cases,
+    shrinking, confirmation, --replay; the pool workers are watched by the harness core instead). The watchdogs inside `run` are
+    Python signal handlers: they cannot fire while the interpreter is inside one C call."""
+    import pickle
+    import select
+    import time as _time
+    r, w = os.pipe()
+    pid = os.fork()
+    if pid == 0:
+        code = 1
+        try:
+            os.close(r)
+            data = pickle.dumps(run(case))
+            while data:
+                data = data[os.write(w, data):]
+            code = 0
+        finally:
+            os._exit(code)
+    os.close(w)
+    buf, deadline, killed = b"", _time.time() + KILL_AFTER_S, False
+    while True:
+        left = deadline - _time.time()
+        if left <= 0:
+            killed = True
+            break
+        ready, _, _ = select.select([r], [], [], left)
+        if not ready:
+            killed = True
+            break
+        chunk = os.read(r, 1 << 16)
+        if not chunk:
+            break
+        buf += chunk
+    os.close(r)
+    if killed:
+        try:
+            os.kill(pid, signal.SIGKILL)
+        except OSError:
+            pass
+    try:
+        os.waitpid(pid, 0)
+    except OSError:
+        pass
+    if not killed and buf:
+        try:
+            return pickle.loads(buf)
+        except Exception:
+            pass
+    return {"exc": "Hang", "where": "killed", "detail": "",
+            "monitor": [f"no answer within {KILL_AFTER_S} s of wall time, not even to the watchdog signals (the interpreter sat inside one C call)"],
+            "max_per_line": 0, "checks": 0, "corrections": 0, "shape": [], "ok_shape": False, "diag_classes": []}
+
+
+def run(case: dict, stream: bool = False) -> dict:
+    """case: {text, mode: page|block|inline, domain, fileid?}; stream: called from a worker of the case stream"""
     install_monitor()
     MON["viol"] = []
     MON["max_per_line"] = 0
@@ -231,6 +294,10 @@ def run(case: dict) -> dict:
     text = case["text"]
     mode = case.get("mode", "page")
     out: Dict[str, Any] = {"exc": None}
+    if stream and HANGS.value >= HANG_LIMIT:
+        out.update(skipped_after_hangs=True, shape=[], ok_shape=True, diag_classes=[], monitor=[], max_per_line=0, checks=0, corrections=0)
+        return out
+
     if case.get("record"):
         install_recorder()
         REC["on"] = True
@@ -262,6 +329,8 @@ def run(case: dict) -> dict:
             out["ok_shape"] = isinstance(kids, list) and all(isinstance(k, n.Node) for k in kids)
             out["diag_classes"] = sorted({type(d).__name__ for d in diags})
     except Watchdog:
+        with HANGS.get_lock():
+            HANGS.value += 1
         out["exc"] = "Hang"
         out["where"] = "watchdog" if not MON["viol"] else "monitor"
         out["detail"] = ""
